@@ -290,11 +290,14 @@ def gamete_cases(tier, seed):
     T = tier == "thorough"
     A = xo_alphabet(seed)
     out = []
-    mmax = 5 if T else 4
+    mmax = 6 if T else 5
     for fn in ("mat_meiosis", "dense_meiosis"):
         for m in range(1, mmax + 1):
             for vec in itertools.product(A, repeat=m):
-                if m == 5 and not (vec[0] in (0.5, A[1])):
+                # the longest vectors of a tier: start on 1/2 or a, (and for m = 6 end on a, b or 1)
+                if m == mmax and not (vec[0] in (0.5, A[1])):
+                    continue
+                if m == 6 and vec[-1] not in (A[1], A[2], 1.0):
                     continue
                 out.append(dict(part="gamete", fn=fn, xop=list(vec), sel=[1], seed=seed, _cost=2 ** m))
         # two gametes: same individual twice, and two individuals
@@ -591,7 +594,7 @@ def cross_cases(tier, seed):
         else:
             rows = nm * npg * (k + 2 * nself)
         cost = 2 ** (rows * free)
-        assert cost <= 2 ** 17, (proto, xop, cost)
+        assert cost <= 2 ** 18, (proto, xop, cost)
         out.append(dict(part="cross", proto=proto, layout=list(layout), xop=list(xop), xconfig=list(xconfig), nmating=nm,
                         nprogeny=npg, nself=nself, seed=seed, _cost=cost * 8))
 
@@ -620,12 +623,21 @@ def cross_cases(tier, seed):
     add("ThreeWayDHCross", (2,), x2, [0, 1, 2])
     add("FourWayCross", (2,), x2, [0, 1, 2, 3])
     add("FourWayDHCross", (2,), x2, [0, 1, 2, 3])
+    add("ThreeWayCross", (3,), x3, [3, 0, 1])
+    add("ThreeWayDHCross", (3,), x3b, [3, 0, 1])
+    add("FourWayCross", (3,), [0.5, q, 0.0], [0, 1, 2, 3])
+    add("FourWayDHCross", (2,), [0.5, 1.0], [0, 1, 2, 3], nself=1)
+    # crossover probabilities as a Haldane map assigns them (arbitrary doubles)
+    xh = [0.5, R.haldane(0.05), R.haldane(0.4)]
+    add("TwoWayDHCross", (3,), xh, [2, 0])
+    add("TwoWayCross", (3,), xh, [2, 0])
     if T:
         add("TwoWayDHCross", (3,), x3, [1, 3], npg=2)
+        add("FourWayCross", (3,), x3, [1, 0, 3, 2])
+        add("ThreeWayDHCross", (3,), xh, [1, 2, 0])
         add("TwoWayDHCross", (3,), x3, [0, 2], nself=1)
         add("TwoWayCross", (3,), x3, [0, 2], nself=1)
         add("SelfCross", (3,), x3, [1], nself=1)
-        add("ThreeWayCross", (3,), x3, [3, 0, 1])
         add("ThreeWayCross", (2,), x2, [0, 1, 2], npg=2)
         add("ThreeWayCross", (2,), x2, [0, 1, 2], nself=1)
         add("ThreeWayDHCross", (3,), x3, [3, 0, 1])
@@ -633,10 +645,9 @@ def cross_cases(tier, seed):
         add("ThreeWayDHCross", (2,), [0.5, 1.0], [0, 1, 2], npg=2)
         add("FourWayCross", (1, 1), [0.5, 0.5], [3, 2, 1, 0])
         add("FourWayCross", (2,), x2, [0, 0, 1, 1], nself=1)
-        add("FourWayCross", (3,), [0.5, q, 0.0], [0, 1, 2, 3])
         add("FourWayDHCross", (2,), [0.5, q], [1, 0, 3, 2])
         add("FourWayDHCross", (3,), [0.5, 1.0, q], [0, 1, 2, 3])
-        add("FourWayDHCross", (2,), [0.5, 1.0], [0, 1, 2, 3], nself=1)
+        add("FourWayDHCross", (2,), [0.5, 1.0], [3, 2, 1, 0], nself=1)
     return out
 
 
@@ -675,9 +686,9 @@ def shards(tier, seed):
 def run_shard(spec, ctx):
     part, cases = spec
     T = ctx.tier == "thorough"
-    ctx.bounds.update({"gamete_markers_max": 5 if T else 4, "gametes_per_call_max": 3 if T else 2,
+    ctx.bounds.update({"gamete_markers_max": 6 if T else 5, "gametes_per_call_max": 3 if T else 2,
                        "xoprob_alphabet": xo_alphabet(ctx.seed), "map_markers_max": 6,
-                       "cross_markers_max": 3, "cross_answer_classes_max_per_config": 2 ** 17,
+                       "cross_markers_max": 3, "cross_answer_classes_max_per_config": 2 ** 18,
                        "boundary_layer_deviation_bound_m3": 2})
     fn = PARTS[part][1]
     for cs in cases:
@@ -703,10 +714,15 @@ def finalize(ctx, tier, seed):
         assert c.get(f"gamete:{fn}:configs", 0) > 0, fn
     for proto in RM.PROTOS:
         assert c.get(f"cross:{proto}:configs", 0) > 0, proto
-    assert c.get("map:configs", 0) > 0 and c.get("map:haldane-pairs-verified", 0) > 0
-    assert c.get("exact-laws-verified", 0) > 100
+    assert c.get("map:configs", 0) > 0
     for f in ("xoprob-0", "xoprob-half", "xoprob-1", "boundary-layer", "two-gametes", "two-chromosomes"):
         assert f in ctx.flags, f
+    assert c.get("boundary:weight-0-answers-exercised", 0) > 0
+    if ctx.violations:
+        return      # the guards below say "a clean verdict is not vacuous"; a run with violations is not a clean verdict
+    assert c.get("map:haldane-pairs-verified", 0) > 0
+    assert c.get("exact-laws-verified", 0) > 100
+    assert ctx.traces == ctx.evaluations
     assert len(ctx.outcomes) > 100, len(ctx.outcomes)
 
 
